@@ -2,7 +2,7 @@ CONSTANTS
   S = 3
   N = 3
   Mode = "parts"
-  Kinds = {"Sum","Min","Max","TopN","Rows","GroupBy","Count","Row","Bool"}
+  Kinds = {"Sum","Min","Max","Rows","Count","Row","Bool"}
   Lims = {1,2}
   Vals <- ValsB
   MaxCnt = 1
